@@ -48,14 +48,20 @@ Update(s, c) == LET n == NLeaves(s) IN [k \in 1..n |-> <<k - 1, (c - 1) * n + k 
 \*          ("reversed") or unrelated to it ("mixed") - "declaration order" is not "name order";
 \*  attrs:  fields carrying attributes (doc comments, #[allow], a #[cfg] whose predicate is true) are
 \*          members like any other; a field whose #[cfg] predicate is false does not exist.
+\*  style:  how the declaration is laid out - "block" (one field per line, trailing comma, as rustfmt writes it),
+\*          "compact" (one line, no comma after the last field) or "macro" (the struct is declared through a
+\*          macro_rules! macro that captures the field types as `ty` fragments, again without trailing comma).
 Namings == {"ordered", "reversed", "mixed"}
-CONSTANT Full     \* TRUE: every (naming, attrs) combination for the small shapes too
-Variants(s) == IF Full /\ NLeaves(s) <= 3 THEN [naming : Namings, attrs : BOOLEAN]
-               ELSE {[naming |-> "ordered", attrs |-> FALSE], [naming |-> "reversed", attrs |-> TRUE], [naming |-> "mixed", attrs |-> FALSE]}
+Styles == {"block", "compact", "macro"}
+CONSTANT Full     \* TRUE: every (naming, attrs, style) combination for the small shapes too
+Variants(s) == IF Full /\ NLeaves(s) <= 3 THEN [naming : Namings, attrs : BOOLEAN, style : Styles]
+               ELSE {[naming |-> "ordered", attrs |-> FALSE, style |-> "block"], [naming |-> "reversed", attrs |-> TRUE, style |-> "block"],
+                     [naming |-> "mixed", attrs |-> FALSE, style |-> "compact"], [naming |-> "ordered", attrs |-> TRUE, style |-> "macro"],
+                     [naming |-> "mixed", attrs |-> FALSE, style |-> "macro"], [naming |-> "reversed", attrs |-> TRUE, style |-> "compact"]}
 VARIABLES sh, var, done
 GInit == sh \in ShapeSet /\ var \in Variants(sh) /\ done = FALSE
 GNext == UNCHANGED <<sh, var, done>>
-EmitShape == PrintT(<<"SHAPE", ToJson([shape |-> sh, leaves |-> Flat(sh), n |-> NLeaves(sh), naming |-> var.naming, attrs |-> var.attrs])>>)
+EmitShape == PrintT(<<"SHAPE", ToJson([shape |-> sh, leaves |-> Flat(sh), n |-> NLeaves(sh), naming |-> var.naming, attrs |-> var.attrs, style |-> var.style])>>)
 SizeOK == NLeaves(sh) >= 1 /\ NLeaves(sh) <= 8
 
 \* ---- validation of the recorded traces ---------------------------------------------
@@ -67,7 +73,7 @@ RecOK(r) ==
   /\ r.hand = r.calls                                  \* interchangeable with the hand-written sequence
   /\ Len(r.calls) >= 2
 Bad == {i \in 1..Len(Rec) : ~RecOK(Rec[i])}
-VInit == done = FALSE /\ sh = Leaf("A") /\ var = [naming |-> "ordered", attrs |-> FALSE]
+VInit == done = FALSE /\ sh = Leaf("A") /\ var = [naming |-> "ordered", attrs |-> FALSE, style |-> "block"]
 VNext == done = FALSE /\ done' = TRUE /\ UNCHANGED <<sh, var>>
 Verdict ==
   done =>
